@@ -167,4 +167,126 @@ def floor2(n):
     return p
 
 
-CHECKS = {"C19": check_C19}
+# ---------------------------------------------------------------- Pipeline / C03, C07
+from tlaval import parse_call, unset
+
+ALL_TYPES = {"A": {"A"}, "R": {"R"}, "W": {"W"}, "X": {"X"}, "I": {"I"}, "E": {"E"}, "RW": {"R", "W"},
+             "ARI": {"A", "R", "I"}, "AWI": {"A", "W", "I"}, "ALL": {"A", "R", "W", "X", "I", "E"},
+             "RE": {"R", "E"}, "WX": {"W", "X"}}
+
+
+def pipe_consts(types, maxops, maxinst, maxperop, panics):
+    return {"Types": set(types), "IfsOf": {t: set(ALL_TYPES[t]) for t in types}, "MaxOps": maxops,
+            "MaxInst": maxinst, "MaxPerOp": maxperop, "WithPanics": panics}
+
+
+def pipe_op(label):
+    name, args = parse_call(label)
+    args = unset(args)
+    if name in ("AddFirst", "AddLast"):
+        return {"op": name, "refs": args[0]}
+    if name == "AddHandler":
+        return {"op": name, "pos": args[0], "refs": args[1]}
+    if name == "Query":
+        return {"op": name, "x": args[0]}
+    if name == "Fire":
+        return {"op": "Fire", "k": args[0], "entry": args[1], "from": args[2], "stop": args[3], "pan": args[4], "pv": args[5]}
+    raise Inconclusive("unknown Pipeline label " + label)
+
+
+def pipe_verdicts(cx, v, results, cases, pid):
+    """For the pipeline the specification is the reference: a recorded execution TLC rejects is a violation,
+    attributed to C07 when the rejected step injected a panic and to C03 otherwise."""
+    byid = {r["id"]: (r, c) for r, c in zip(results, cases)}
+    for rid, step, line in v["rejected"]:
+        if step == 0:
+            continue  # not validated (too many rejections in this batch)
+        r, c = byid[rid]
+        ev = r["events"][step - 1] if 0 < step <= len(r["events"]) else {}
+        prop = "C07" if ev.get("pan") else "C03"
+        what = "%s %s" % (ev.get("op"), {k: ev.get(k) for k in ("k", "entry", "from", "stop", "pan", "pv", "pos", "refs", "x") if ev.get(k) not in (None, [], "", 0)})
+        obs = {k: ev.get(k) for k in ("order", "size", "first", "lastidx", "log", "wrote", "xlog", "closed", "escaped", "rejected")}
+        f = {"prop": prop, "key": "model-mismatch/%s/%s" % (ev.get("op"), ev.get("k") or ev.get("entry") or ""),
+             "msg": "step %d (%s): the real pipeline produced %s, which Pipeline.tla does not allow" % (step, what, obs), "step": step}
+        cc = dict(c)
+        cc["ops"] = [{k: e[k] for k in ("op", "pos", "refs", "x", "k", "entry", "from", "stop", "pan", "pv") if k in e} for e in r["events"][:step]]
+        cc["random"] = 0
+        if prop == pid:
+            cx.fails.append((f, cc, r))
+        else:
+            cx.other_fails[prop] = cx.other_fails.get(prop, 0) + 1
+    cx.nonconforming = [n for n in cx.nonconforming if False]
+
+
+def check_pipeline(cx, pid):
+    cx.module = "pipe"
+    cx.build()
+    quick = cx.tier == "quick"
+    panics = pid == "C07"
+    inv = ["TypeOK", "QueryConsistent", "FireConsistent"]
+    # exhaustive over a small palette: every operation sequence up to the bound, every position,
+    # every event kind x entry point x forwarding mask (x panic injection for C07)
+    small = pipe_consts(["RW", "X"] if not panics else ["RW", "ALL"], 2 if quick else 3, 2, 2 if not panics else 1, panics)
+    res = generic_mc(cx, "MCsmall", "Pipeline", small, inv, what="%s reference sanity, palette %s" % (pid, sorted(small["Types"])), timeout=1500)
+    gsmall = pipe_consts(["RW", "X"] if not panics else ["RW", "ALL"], 2, 2, 2 if not panics else 1, panics)
+    init, adj = generic_graph(cx, "Gsmall", "Pipeline", gsmall, timeout=1500)
+    paths, total, planned = edge_cover(init, adj, cx.rnd, max_paths=3000 if quick else None)
+    cases = [{"id": "g%d" % i, "ops": [pipe_op(l) for _, l, _ in p], "seed": 1} for i, p in enumerate(paths)]
+    rs = run_driver(cx.driver, "pipe", cases, cx.wd, tag="g")
+    cx.absorb(rs, cases)
+    v = validate(cx, "Tsmall", "TracePipeline", gsmall, rs, inv, {"op": "reset"})
+    pipe_verdicts(cx, v, rs, cases, pid)
+    cx.edges_total += total
+    cx.edges_walked += planned if not v["rejected"] else 0
+    log("  pipeline graph: %d edges, %d paths, %d rejected, t=%.1fs" % (total, len(paths), len(v["rejected"]), time.time() - cx.t0))
+    # random programs over the full palette of 12 handler types, longer histories, validated by TLC
+    types = sorted(ALL_TYPES)
+    big = pipe_consts(types, 16, 6, 3, panics)
+    n = 150 if quick else 2000
+    cases = [{"id": "r%d" % i, "random": 14, "types": types, "max_inst": 6, "max_per_op": 3, "panics": panics,
+              "seed": cx.rnd.randrange(1 << 40)} for i in range(n)]
+    rs = run_driver(cx.driver, "pipe", cases, cx.wd, tag="r")
+    cx.absorb(rs, cases)
+    for chunk in range(0, len(rs), 500):
+        v = validate(cx, "Tbig%d" % chunk, "TracePipeline", big, rs[chunk:chunk + 500], inv, {"op": "reset"})
+        pipe_verdicts(cx, v, rs[chunk:chunk + 500], cases[chunk:chunk + 500], pid)
+    if rs:
+        cx.samples.append({"program": [{k: e[k] for k in ("op", "k", "entry", "from", "stop", "pan", "pv", "pos", "refs", "x", "order", "log", "xlog", "closed") if e.get(k) not in (None, "", [])} for e in rs[0]["events"][:6]]})
+    cx.assume.append("Pipeline.tla is the reference for C03/C07: a recorded execution of the real pipeline that TLC rejects is reported as a violation")
+    cx.assume.append("the read loop's per-invocation recover scope is entered through VerifInvokeMethod; the loop itself is covered by Channel.tla")
+    return finish(cx, rule="cases = operation programs (building calls, queries, event firings with forwarding masks%s): TLC state-graph edge covers of a small "
+                            "palette and seeded random programs over 12 handler types, executed on a real pipeline+channel; distinct_nontrivial = distinct "
+                            "Pipeline.tla transitions replayed" % (", panic injections" if panics else ""))
+
+
+def check_C03(cx):
+    return check_pipeline(cx, "C03")
+
+
+def check_C07(cx):
+    # transport failures in the sender and the read loop: Channel.tla with fault actions
+    import chancheck as cc
+    from chanlib import cfg, NZ_SIZES
+    cx.build()
+    quick = cx.tier == "quick"
+    inv = ["TypeOK", "C05_Once", "C05_InactiveErr", "C07_FaultCloses"]
+    W = cc.W
+    mcs = [("wfault", cfg({"W1": W("W1"), "W2": W("Wv")}, qsize=1, until=True, serve="full", reads=1, maxfaults=1)),
+           ("wfault-closer", cfg({"W1": W("W1")}, {"C1": "e1"}, qsize=2, until=True, serve="full", reads=1, maxfaults=1))]
+    if not quick:
+        mcs += [("wfault2", cfg({"W1": W("W1", "Wv"), "W2": W("CW1")}, qsize=2, until=False, serve="full", reads=1, maxfaults=2)),
+                ("sync-rfault", cfg({"W1": W("W1", "CWv")}, {"C1": "nil"}, qsize=0, serve="full", reads=2, maxfaults=2))]
+    for name, c in mcs:
+        cc.mc_and_replay_cex(cx, "MC" + name.replace("-", ""), c, inv, what="C07 transport faults close the channel, " + name)
+    lc = cfg({"W1": W("W1")}, qsize=1, until=True, serve="full", reads=1, maxfaults=1)
+    cc.mc_and_replay_cex(cx, "MClive", lc, ["TypeOK"], properties=["C07_FaultEventuallyCloses"], spec="FairSpec",
+                         what="a transport fault eventually closes the channel and ends the read loop")
+    for name, c in [("rf", cfg({"W1": W("W1", "Wv"), "W2": W("CW1")}, qsize=2, until=True, serve="full", reads=2, maxfaults=1)),
+                    ("rfc", cfg({"W1": W("W1", "Wv"), "W2": W("CW1")}, {"C1": "e1"}, qsize=1, until=False, serve="full", reads=1, maxfaults=2))]:
+        results = cc.random_runs(cx, name, c, 40 if quick else 400, fault_prob=0.3, sizes=NZ_SIZES)
+    for f, case, r in cx.fails:
+        case["_module"] = "chan"
+    return check_pipeline(cx, "C07")
+
+
+CHECKS = {"C19": check_C19, "C03": check_C03, "C07": check_C07}
